@@ -28,6 +28,14 @@
      d2l d2r (x op y) op2 z  /  z op2 (x op y): nested operations (temporaries on the stack / the x87
              register stack, operand order at depth 2); op in + - /, op2 in - / *; the case's "b" is op2
 
+     chl chr ((F)(I)x) op rhs  /  rhs op ((F)(I)x): a binary operator or comparison in a floating type F
+             one of whose operands is a *conversion chain* applied to a variable or constant x of any
+             arithmetic type S, through any arithmetic type I (the case's "b") back to F; rhs is a
+             variable y or the sum y + z.  The conversion sequences (2^63 split, cmp_zero for _Bool,
+             the x87 bracket) run while the other operand is live in a register or on a stack; chains
+             through unsigned long and _Bool are never subsampled.  op in - / < ==, F and the form of
+             rhs are enumerated by the second value index.
+
    Every vector also says whether one of its operands or its result is a *special* floating
    value (sp: -0, NaN, an infinity or a subnormal).  The replay embeds each vector in several
    program contexts (operands from memory; constants in a run-time expression; static
@@ -129,6 +137,12 @@ MixTab(t) == IF IsF(t) THEN <<Third(Fmt(t)), FI(Fmt(t), 16777216), Vd(Fmt(t), 1,
                   IN <<IV(FALSE, X(3)), IV(FALSE, IF w > 25 THEN Pp(24, 1) ELSE X(100)), IV(FALSE, mx)>>
                      \o (IF IntSg(t) THEN <<IV(TRUE, IF w > 25 THEN Pp(24, 3) ELSE X(7))>> ELSE << >>)
 
+(* conversion chains: the chain's source values; NaN is defined only through _Bool or a floating I *)
+ChTab(t) == IF IsF(t) THEN LET F == Fmt(t) IN
+                           <<Third(F), FI(F, 200), FI(F, 16777216), Vd(F, 1, X(3), -1),
+                             IntToFloat(F, IV(FALSE, XFromDigits(<<3,0,0,0,0,0,0,0,0,0>>))), Vd(F, 0, PA(63, 40), 0), NaN>>
+             ELSE MixTab(t)
+
 (* ---- constants --------------------------------------------------------------- *)
 DecMan == <<<<1>>, <<2>>, <<3>>, <<5>>, <<7>>, <<9>>, <<1,7>>, <<2,5>>, <<3,3>>, <<1,2,3>>, <<1,0,2,4>>, <<6,5,5,3,6>>,
             <<1,6,7,7,7,2,1,7>>, <<1,2,3,4,5,6,7,8,9>>, <<4,2,9,4,9,6,7,2,9,5>>,
@@ -160,17 +174,27 @@ ASSUME TLCSet(22, TabOf(LAMBDA t : ArTab(Fmt(t)), FSeq))
 ASSUME TLCSet(23, TabOf(LAMBDA t : CmTab(Fmt(t)), FSeq))
 ASSUME TLCSet(24, TabOf(MixTab, TSeq))
 ASSUME TLCSet(25, TabOf(LAMBDA t : D2Tab(Fmt(t)), FSeq))
+ASSUME TLCSet(26, TabOf(ChTab, TSeq))
+ASSUME TLCSet(27, TabOf(LAMBDA t : LET F == Fmt(t)  y == Third(F)  z == Vd(F, 1, X(29), -2) IN <<y, z, Add(F, y, z)>>, FSeq))
 
 D2 == fam \in {"d2l", "d2r"}
-Big == fam \in {"arith", "cmp", "dec", "hex", "mixed", "opasg", "d2l", "d2r"} \/ (fam = "truth" /\ op \in {"land", "lor"})
+Ch == fam \in {"chl", "chr"}
+Big == fam \in {"arith", "cmp", "dec", "hex", "mixed", "opasg", "d2l", "d2r", "chl", "chr"} \/ (fam = "truth" /\ op \in {"land", "lor"})
 Unary == fam \in {"conv", "neg", "vararg"} \/ (fam = "truth" /\ op \in {"if", "not", "cond"})
 Tab(t) == CASE fam = "conv" -> TLCGet(21)[t]
             [] fam \in {"arith", "neg", "vararg"} -> TLCGet(22)[t]
             [] fam \in {"cmp", "truth"} -> TLCGet(23)[t]
             [] fam \in {"mixed", "opasg"} -> TLCGet(24)[t]
             [] D2 -> TLCGet(25)[t]
+            [] Ch -> TLCGet(26)[t]
 NI1 == CASE fam = "dec" -> Len(DecMan) [] fam = "hex" -> Len(HexMan) [] OTHER -> Len(Tab(a))
-NJ1 == CASE fam = "dec" -> Len(DecExp) [] fam = "hex" -> Len(HexExp) [] Unary -> 1 [] D2 -> Len(Tab(a)) [] OTHER -> Len(Tab(b))
+NJ1 == CASE fam = "dec" -> Len(DecExp) [] fam = "hex" -> Len(HexExp) [] Unary -> 1 [] D2 -> Len(Tab(a)) [] Ch -> 6 [] OTHER -> Len(Tab(b))
+(* conversion chains: the second index enumerates (F, form of the right-hand operand) *)
+ChF(jj) == FSeq[((jj - 1) % 3) + 1]
+ChSum(jj) == (jj - 1) \div 3 = 1
+ChY(jj) == TLCGet(27)[ChF(jj)][1]                        \* 1/3
+ChZ(jj) == TLCGet(27)[ChF(jj)][2]                        \* -7.25
+ChRhs(jj) == TLCGet(27)[ChF(jj)][IF ChSum(jj) THEN 3 ELSE 1]
 ZIdx(ii, jj) == ((ii + jj) % Len(Tab(a))) + 1          \* the third operand of the depth-2 families
 
 N1S == {"-"}
@@ -189,6 +213,7 @@ Cases ==
                               t \in ATypes, u \in ATypes}
   \cup {<<"opasg", o, t, u>> : o \in ArOps, t \in ATypes, u \in ATypes}
   \cup {<<"vararg", "-", t, "-">> : t \in {"float", "double"}}
+  \cup {<<f, o, t, u>> : f \in {"chl", "chr"}, o \in {"sub", "div", "lt", "eq"}, t \in ATypes, u \in ATypes}
   \cup {<<f, o, t, o2>> : f \in {"d2l", "d2r"}, o \in {"add", "sub", "div"}, t \in FTypes, o2 \in {"sub", "div", "mul"}}
 CaseOK(cs) == cs[1] \in {"mixed", "opasg"} => (cs[3] # cs[4] /\ (IsF(cs[3]) \/ IsF(cs[4])))
 OIdx(o) == CASE o = "add" -> 1 [] o = "sub" -> 2 [] o = "mul" -> 3 [] o = "div" -> 4 [] o = "lt" -> 5 [] o = "le" -> 6
@@ -197,7 +222,7 @@ OIdx(o) == CASE o = "add" -> 1 [] o = "sub" -> 2 [] o = "mul" -> 3 [] o = "div" 
              [] OTHER -> 0
 TI(t) == IF t = "-" THEN 0 ELSE TIdx(t)
 CaseHash(cs) == OIdx(cs[2]) * 101 + TI(cs[3]) * 7 + (IF cs[1] \in {"d2l", "d2r"} THEN OIdx(cs[4]) * 17 ELSE TI(cs[4]) * 13)
-Pick(ii, jj) == (Big /\ ~(fam = "dec" /\ ii \in DecAlways)) => (hb + ii * 31 + jj * 37 + Seed) % Stride = 0
+Pick(ii, jj) == (Big /\ ~(fam = "dec" /\ ii \in DecAlways) /\ ~(Ch /\ b \in {"ulong", "bool"})) => (hb + ii * 31 + jj * 37 + Seed) % Stride = 0
 
 (* ---- Level A on the current case ------------------------------------------------ *)
 ValBytes(t, v) == IF IsF(t) THEN Encode(Fmt(t), v) ELSE IntBytes(t, v)
@@ -237,6 +262,16 @@ Expect(ii, jj) ==
                  in == Arith(F, op, Tab(a)[ii], Tab(a)[jj])
                  z  == Tab(a)[ZIdx(ii, jj)]
              IN R(TRUE, a, IF fam = "d2l" THEN Arith(F, b, in, z) ELSE Arith(F, b, z, in))
+    [] Ch -> LET ft == ChF(jj)  F == Fmt(ft)  x == Tab(a)[ii] IN
+             IF ~ConvDef(a, b, x) THEN R(FALSE, ft, 0)
+             ELSE LET m == Conv(a, b, x) IN
+                  IF ~ConvDef(b, ft, m) THEN R(FALSE, ft, 0)
+                  ELSE LET cx  == Conv(b, ft, m)
+                           rhs == ChRhs(jj)
+                           l   == IF fam = "chl" THEN cx ELSE rhs
+                           r   == IF fam = "chl" THEN rhs ELSE cx
+                       IN IF op \in {"lt", "eq"} THEN R(TRUE, "int", BoolIV(Rel(op, l, r)))
+                          ELSE R(TRUE, ft, Arith(F, op, l, r))
     [] fam = "vararg" -> R(TRUE, ArgPromote(a), FloatToFloat(Fmt(ArgPromote(a)), Tab(a)[ii]))
 
 (* -0, NaN, infinities and subnormals: the values whose object representation is not determined by
@@ -245,16 +280,20 @@ IsSpecial(t, v) == IsF(t) /\ (v.k \in {"nan", "inf"} \/ (v.k = "zero" /\ v.s = 1
                               \/ (v.k = "fin" /\ XBitLen(v.m) < Fmt(t).p))
 EmitR(r, ii, jj) ==
   IF ~r.ok THEN FALSE
-  ELSE CSVWrite("%1$s", <<ToJson([f |-> fam, op |-> op, at |-> a, bt |-> IF D2 THEN a ELSE b, rt |-> r.t, sz |-> SizeOf(r.t),
-                                   op2 |-> IF D2 THEN b ELSE "", zb |-> IF D2 THEN ValBytes(a, Tab(a)[ZIdx(ii, jj)]) ELSE << >>,
+  ELSE CSVWrite("%1$s", <<ToJson([f |-> fam, op |-> op, at |-> a, bt |-> IF D2 THEN a ELSE IF Ch THEN ChF(jj) ELSE b, rt |-> r.t, sz |-> SizeOf(r.t),
+                                   it |-> IF Ch THEN b ELSE "",
+                                   op2 |-> IF D2 THEN b ELSE "",
+                                   zb |-> IF D2 THEN ValBytes(a, Tab(a)[ZIdx(ii, jj)])
+                                          ELSE IF Ch /\ ChSum(jj) THEN ValBytes(ChF(jj), ChZ(jj)) ELSE << >>,
                                    xb |-> IF fam \in {"dec", "hex"} THEN << >> ELSE ValBytes(a, Tab(a)[ii]),
                                    yb |-> IF Unary \/ fam \in {"dec", "hex"} THEN << >>
-                                          ELSE IF D2 THEN ValBytes(a, Tab(a)[jj]) ELSE ValBytes(b, Tab(b)[jj]),
+                                          ELSE IF D2 THEN ValBytes(a, Tab(a)[jj])
+                                          ELSE IF Ch THEN ValBytes(ChF(jj), ChY(jj)) ELSE ValBytes(b, Tab(b)[jj]),
                                    rb |-> ValBytes(r.t, r.v),
                                    rn |-> IsF(r.t) /\ r.v.k = "nan",
                                    sp |-> \/ IsSpecial(r.t, r.v)
                                           \/ (fam \notin {"dec", "hex"} /\ IsSpecial(a, Tab(a)[ii]))
-                                          \/ (~Unary /\ fam \notin {"dec", "hex"} /\ IsSpecial(IF D2 THEN a ELSE b, Tab(IF D2 THEN a ELSE b)[jj]))
+                                          \/ (~Unary /\ ~Ch /\ fam \notin {"dec", "hex"} /\ IsSpecial(IF D2 THEN a ELSE b, Tab(IF D2 THEN a ELSE b)[jj]))
                                           \/ (D2 /\ IsSpecial(a, Tab(a)[ZIdx(ii, jj)])),
                                    man |-> CASE fam = "dec" -> Str(DecMan[ii]) [] fam = "hex" -> Str(HexMan[ii]) [] OTHER -> "",
                                    ex |-> CASE fam = "dec" -> DecExp[jj] [] fam = "hex" -> HexExp[jj] [] OTHER -> 0,
